@@ -71,7 +71,7 @@ class ObjectiveMaximizeIndicator(Objective):
 class ObjectiveMinimizeIndicator(Objective):
     def __init__(self, **data) -> None:
         target = data["target"]
-        weight = data["weight"]
+        weight = data.get("weight", 1)
         super().__init__(
             name=f"Minimize{target.name}",
             target=target,
